@@ -203,11 +203,17 @@ func c15RunLarge(c *core.Ctx) {
 		return
 	}
 	n := []int{1, 8, 63, 64, 65, 100, 128, 200}[r.Intn(8)]
+	if r.Chance(1, 8) {
+		n = []int{255, 257, 4095, 4097, 5000, 9000, 65535, 65537, 70000}[r.Intn(9)] // sources of another magnitude
+	}
 	src := NewStack(Kinds[r.Intn(5)], 0)
 	for i := 0; i < n; i++ {
 		src.Push(i + 1)
 	}
 	capacity := []int{0, 0, n - 1, n, n + 5}[r.Intn(5)]
+	if n > 300 && r.Chance(1, 2) {
+		capacity = n - n/10 + r.Intn(3) // room for most of the source, not for all of it
+	}
 	if capacity < 0 {
 		capacity = 0
 	}
